@@ -65,14 +65,16 @@ def build_harness(scratch, race=False, tags="verif"):
                 if f.endswith(".go") and not f.endswith("_test.go"):
                     shutil.copy(os.path.join(src, f), os.path.join(dst, f))
     out = os.path.join(scratch, "verifh" + ("-race" if race else ""))
-    cmd = ["go", "build", "-tags", tags, "-o", out]
-    if race:
-        cmd.insert(2, "-race")
-    cmd.append(".")
-    p = sh(cmd, cwd=hdir, env=GOENV, timeout=600, check=False)
-    if p.returncode != 0:
-        raise MachineryError("harness does not build against %s:\n%s" % (REPO, p.stdout[-3000:]))
-    return out
+    # first with the hook bindings; a tree whose Run was rewritten without the hooks still builds without them
+    for tg in (tags + " verifhooks", tags):
+        cmd = ["go", "build", "-tags", tg, "-o", out]
+        if race:
+            cmd.insert(2, "-race")
+        cmd.append(".")
+        p = sh(cmd, cwd=hdir, env=GOENV, timeout=600, check=False)
+        if p.returncode == 0:
+            return out
+    raise MachineryError("harness does not build against %s:\n%s" % (REPO, p.stdout[-3000:]))
 
 
 # --------------------------------------------------------------------------
